@@ -16,19 +16,23 @@ impl PartialEq for Keyed {
 }
 
 trait Val: Clone + PartialEq + std::fmt::Debug {
-    fn gen(cs: &mut Cs, serial: u32) -> Self;
+    /// `wide` = 0: the small default alphabet; otherwise values from an alphabet of `wide` elements
+    fn gen(cs: &mut Cs, serial: u32, wide: usize) -> Self;
     fn same(&self, o: &Self) -> bool;
 }
 impl Val for u8 {
-    fn gen(cs: &mut Cs, _s: u32) -> u8 {
-        cs.below(6) as u8
+    fn gen(cs: &mut Cs, _s: u32, wide: usize) -> u8 {
+        cs.below(if wide == 0 { 6 } else { wide.min(256) }) as u8
     }
     fn same(&self, o: &u8) -> bool {
         self == o
     }
 }
 impl Val for f64 {
-    fn gen(cs: &mut Cs, _s: u32) -> f64 {
+    fn gen(cs: &mut Cs, _s: u32, wide: usize) -> f64 {
+        if wide != 0 && cs.below(4) != 0 {
+            return cs.below(wide) as f64;
+        }
         match cs.below(6) {
             0 => f64::NAN,
             1 => 0.0,
@@ -43,9 +47,9 @@ impl Val for f64 {
     }
 }
 impl Val for Keyed {
-    fn gen(cs: &mut Cs, s: u32) -> Keyed {
+    fn gen(cs: &mut Cs, s: u32, wide: usize) -> Keyed {
         Keyed {
-            key: cs.below(5) as u8,
+            key: cs.below(if wide == 0 { 5 } else { wide.min(256) }) as u8,
             payload: s,
         }
     }
@@ -55,14 +59,20 @@ impl Val for Keyed {
 }
 
 fn run_ops<T: Val>(cs: &mut Cs, st: &mut Stats, tyname: &str) -> R {
+    let n = cs.below(201);
+    run_ops_n::<T>(cs, st, tyname, n, 0, 1)
+}
+
+/// `n` operations over an alphabet (`wide`, 0 = default); every token is looked up again every
+/// `sweep` steps and at the end (the newest token after every step)
+fn run_ops_n<T: Val>(cs: &mut Cs, st: &mut Stats, tyname: &str, n: usize, wide: usize, sweep: usize) -> R {
     let mut s: Storage<T> = Storage::new();
     let mut model: Vec<T> = vec![];
     let mut tokens: Vec<Token<T>> = vec![];
-    let n = cs.below(201);
     let mut log = vec![];
     let mut fetched_existing = 0;
     for step in 0..n {
-        let v = T::gen(cs, step as u32);
+        let v = T::gen(cs, step as u32, wide);
         let fetch = cs.bool();
         let t = if fetch {
             no_panic("Storage::fetch_or_append", || s.fetch_or_append(v.clone()))?
@@ -91,7 +101,8 @@ fn run_ops<T: Val>(cs: &mut Cs, st: &mut Stats, tyname: &str) -> R {
             }
         }
         // every token ever returned still yields its value
-        for (i, tk) in tokens.iter().enumerate() {
+        let from = if step % sweep == 0 || step + 1 == n { 0 } else { tokens.len().saturating_sub(1) };
+        for (i, tk) in tokens.iter().enumerate().skip(from) {
             let got = no_panic("Storage index", || s[*tk].clone())?;
             if !got.same(&model[i]) {
                 return Err(fail("stable-lookup", format!("lookup through token {} yields {:?}, appended value was {:?}", i, got, model[i])));
@@ -99,6 +110,9 @@ fn run_ops<T: Val>(cs: &mut Cs, st: &mut Stats, tyname: &str) -> R {
         }
     }
     st.count(&format!("sequences_{}", tyname));
+    if model.len() > 512 {
+        st.count("sequences_storing_more_than_512_values");
+    }
     if fetched_existing > 0 && n >= 4 {
         st.nontrivial(hash_str(&log.join(";")) ^ hash_str(tyname));
     }
@@ -115,18 +129,32 @@ fn sub_sequences(input: &[u8], st: &mut Stats) -> R {
     }
 }
 
-pub const SUBS: &[Sub] = &[Sub { name: "sequences", f: sub_sequences }];
+/// medium and long sequences (300-3000 operations) over alphabets of 6 / 64 / 250 values, so that
+/// equal values lie hundreds of positions apart
+fn sub_long(input: &[u8], st: &mut Stats) -> R {
+    let mut cs = Cs::new(input);
+    let n = 300 + cs.below(2700);
+    let wide = [6usize, 64, 250][cs.below(3)];
+    match cs.below(3) {
+        0 => run_ops_n::<u8>(&mut cs, st, "u8", n, wide, 97),
+        1 => run_ops_n::<f64>(&mut cs, st, "f64-with-NaN", n, wide, 97),
+        _ => run_ops_n::<Keyed>(&mut cs, st, "key-equality", n, wide, 97),
+    }
+}
+
+pub const SUBS: &[Sub] = &[Sub { name: "sequences", f: sub_sequences }, Sub { name: "long-sequences", f: sub_long }];
 
 pub fn run(ctx: &Ctx) {
     run_regress(ctx, SUBS);
     drive_random(ctx, &SUBS[0], ctx.n(40_000, 20_000_000), 700);
+    drive_random(ctx, &SUBS[1], ctx.n(1_000, 400_000), 12_000);
 }
 
 pub fn finish(ctx: &Ctx) -> i32 {
     crate::engine::finish(
         ctx,
         Finish {
-            rule: "sequences of 0-200 append / fetch_or_append operations over three value types: u8 (many repeats), f64 with NaN (unequal to itself) and a key/payload struct whose equality compares the key only (so 'first equal' is observable through the payload). Oracle: Vec model: append returns index = previous length, a token never returned before; lookup through every token ever returned yields the modelled value after every step (bitwise / payload-wise); fetch_or_append returns the token of the first stored equal value, else appends. non-trivial = sequence of >= 4 operations in which fetch_or_append found an existing value; distinct = hash of the operation log.",
+            rule: "sequences of 0-200 (and, in `long-sequences`, 300-3000 over alphabets of 6 / 64 / 250 values) append / fetch_or_append operations over three value types: u8 (many repeats), f64 with NaN (unequal to itself) and a key/payload struct whose equality compares the key only (so 'first equal' is observable through the payload). Oracle: Vec model: append returns index = previous length, a token never returned before; lookup through every token ever returned yields the modelled value after every step (bitwise / payload-wise); fetch_or_append returns the token of the first stored equal value, else appends. non-trivial = sequence of >= 4 operations in which fetch_or_append found an existing value; distinct = hash of the operation log.",
             assumptions: vec![],
             trusted_base: vec!["Vec model".into(), "proptest".into()],
         },
